@@ -413,11 +413,19 @@ func stringPositions() []stringPos {
 					}, "Content"})
 			case f.Type == vmodel.PkT:
 				out = append(out,
-					stringPos{k, name + ".id", func(v reflect.Value, s string) { v.Field(f.Index).Set(reflect.ValueOf(vocab.PublicKey{ID: vocab.IRI(s), PublicKeyPem: "pem"})) }, "IRI"},
-					stringPos{k, name + ".owner", func(v reflect.Value, s string) { v.Field(f.Index).Set(reflect.ValueOf(vocab.PublicKey{ID: "https://example.com/k", Owner: vocab.IRI(s)})) }, "IRI"},
-					stringPos{k, name + ".publicKeyPem", func(v reflect.Value, s string) { v.Field(f.Index).Set(reflect.ValueOf(vocab.PublicKey{PublicKeyPem: s})) }, "string"})
+					stringPos{k, name + ".id", func(v reflect.Value, s string) {
+						v.Field(f.Index).Set(reflect.ValueOf(vocab.PublicKey{ID: vocab.IRI(s), PublicKeyPem: "pem"}))
+					}, "IRI"},
+					stringPos{k, name + ".owner", func(v reflect.Value, s string) {
+						v.Field(f.Index).Set(reflect.ValueOf(vocab.PublicKey{ID: "https://example.com/k", Owner: vocab.IRI(s)}))
+					}, "IRI"},
+					stringPos{k, name + ".publicKeyPem", func(v reflect.Value, s string) {
+						v.Field(f.Index).Set(reflect.ValueOf(vocab.PublicKey{PublicKeyPem: s}))
+					}, "string"})
 			case f.Type == vmodel.EpPtrT:
-				out = append(out, stringPos{k, name + ".sharedInbox", func(v reflect.Value, s string) { v.Field(f.Index).Set(reflect.ValueOf(&vocab.Endpoints{SharedInbox: vocab.IRI(s)})) }, "IRI"})
+				out = append(out, stringPos{k, name + ".sharedInbox", func(v reflect.Value, s string) {
+					v.Field(f.Index).Set(reflect.ValueOf(&vocab.Endpoints{SharedInbox: vocab.IRI(s)}))
+				}, "IRI"})
 			}
 		}
 	}
